@@ -503,7 +503,11 @@ def rule_measure_rowset(ctx: Ctx) -> None:
                  f"tableau is no longer a valid tableau of the post-measurement state", func="z_measurement_gate",
                  construct=f"z_measurement_gate: row set {why[0] if why else v}")
     # the deterministic branch derives the outcome from a row_sum accumulation into the scratch row
-    outs = [n for n in ast.walk(fn) if isinstance(n, ast.Assign) and norm(n.targets[0]) == "outcome" and not isinstance(n.value, ast.Constant)
+    out_names = {norm(r.value.elts[1]) for r in ast.walk(fn) if isinstance(r, ast.Return) and isinstance(r.value, ast.Tuple) and len(r.value.elts) >= 2
+                 and isinstance(r.value.elts[1], ast.Name)}
+    if not out_names:
+        raise AnalysisError("z_measurement_gate: no `return <tableau>, <outcome name>`")
+    outs = [n for n in ast.walk(fn) if isinstance(n, ast.Assign) and norm(n.targets[0]) in out_names and not isinstance(n.value, ast.Constant)
             and "random" not in norm(n.value)]
     det = [n for n in outs if _phase_derived(fn, n.value)]
     scratch = [lp for lp in loops if lp is not l]
